@@ -1,7 +1,1349 @@
-//! (stub) driver module - see tools/HOWTO.md
-use crate::util::Args;
+//! C08 driver: edit / undo / redo histories on the real `icy_engine::editor::EditState`.
+//!
+//! A case = a seed document + a list of steps (E = one public editing operation, U = undo(), R = redo(),
+//! B = begin_atomic_undo(), X = drop of the innermost guard, Y = guard.end(), Z = undo until the stack is empty,
+//! W = redo until nothing is redoable).  After EVERY engine call one ndjson event is written with the result,
+//! `undo_stack_len()`, `can_redo()` and two digests of an observational snapshot of the whole document
+//! (see `snap`).  `Trace_Undo.tla` judges the events.
+//!
+//! Case sources: (1) history shapes exported by TLC from MC_Undo (Gen_Undo.cfg), E instantiated from the operation
+//! table; (2) every table entry alone, pairs and triples (sampled in quick, exhaustive in thorough) in the canonical
+//! shape E^k Z W Z W; (3) seeded random histories up to 40 steps.
+//! `--explain case.json` re-runs one history with full snapshots and prints the first differing field.
+use crate::util::{guard, panic_site, rng, Args, Out};
+use icy_engine::editor::{AtomicUndoGuard, EditState, UndoState};
+use icy_engine::{
+    attribute, AddType, AttributedChar, BitFont, Buffer, Color, FontMode, IceMode, Layer, Line, Mode, Palette, PaletteMode, Position, Properties, Rectangle,
+    Role, SauceData, SauceString, Selection, Shape, Size, TextAttribute, TextPane,
+};
+use rand::rngs::StdRng;
+use rand::Rng;
+use serde_json::{json, Value};
+use std::collections::hash_map::DefaultHasher;
+use std::hash::Hasher;
 
-pub fn c08(_a: &Args) {
-    eprintln!("c08: driver not built yet");
-    std::process::exit(2);
+pub const W: i32 = 8;
+pub const H: i32 = 5;
+pub const N_SEEDS: usize = 8;
+
+// ------------------------------------------------------------------------------------------------ snapshot
+/// Receiver of the observational snapshot. `strict = false`: the field belongs to the document as the property
+/// describes it; `strict = true`: additional engine state compared only by the model layer.
+trait Sink {
+    fn ints(&mut self, strict: bool, path: &dyn Fn() -> String, v: &[i64]);
+    fn text(&mut self, strict: bool, path: &dyn Fn() -> String, s: &str);
+}
+
+struct HashSink {
+    w: DefaultHasher,
+    x: DefaultHasher,
+}
+
+impl HashSink {
+    fn new() -> Self {
+        HashSink { w: DefaultHasher::new(), x: DefaultHasher::new() }
+    }
+    fn digests(&self) -> (Value, Value) {
+        let f = |h: u64| json!([(h & 0x3FFF_FFFF) as i64, ((h >> 30) & 0x3FFF_FFFF) as i64]);
+        (f(self.w.finish()), f(self.x.finish()))
+    }
+}
+
+impl Sink for HashSink {
+    fn ints(&mut self, strict: bool, _p: &dyn Fn() -> String, v: &[i64]) {
+        self.x.write_usize(v.len());
+        for i in v {
+            self.x.write_i64(*i);
+        }
+        if !strict {
+            self.w.write_usize(v.len());
+            for i in v {
+                self.w.write_i64(*i);
+            }
+        }
+    }
+    fn text(&mut self, strict: bool, _p: &dyn Fn() -> String, s: &str) {
+        self.x.write_usize(s.len());
+        self.x.write(s.as_bytes());
+        if !strict {
+            self.w.write_usize(s.len());
+            self.w.write(s.as_bytes());
+        }
+    }
+}
+
+#[derive(Default, Clone)]
+struct TextSink {
+    items: Vec<(bool, String, String)>,
+}
+
+impl Sink for TextSink {
+    fn ints(&mut self, strict: bool, p: &dyn Fn() -> String, v: &[i64]) {
+        self.items.push((strict, p(), format!("{v:?}")));
+    }
+    fn text(&mut self, strict: bool, p: &dyn Fn() -> String, s: &str) {
+        self.items.push((strict, p(), s.to_string()));
+    }
+}
+
+fn glyph_hash(f: &BitFont) -> i64 {
+    // order-independent over the glyph map
+    let mut acc: u64 = 0;
+    for (ch, g) in &f.glyphs {
+        let mut h = DefaultHasher::new();
+        h.write_u32(*ch as u32);
+        h.write(&g.data);
+        acc = acc.wrapping_add(h.finish());
+    }
+    (acc >> 2) as i64
+}
+
+fn cell(ch: AttributedChar) -> [i64; 5] {
+    [ch.ch as i64, ch.attribute.get_foreground() as i64, ch.attribute.get_background() as i64, ch.attribute.attr as i64, ch.attribute.get_font_page() as i64]
+}
+
+/// The observational snapshot of the whole document, through the public API only.
+fn snap(es: &EditState, s: &mut dyn Sink) {
+    let b = es.get_buffer();
+    s.ints(false, &|| "buffer.size".into(), &[b.get_width() as i64, b.get_height() as i64]);
+    s.ints(false, &|| "buffer.buffer_type".into(), &[b.buffer_type.to_byte() as i64]);
+    s.ints(false, &|| "buffer.ice_mode".into(), &[b.ice_mode.to_byte() as i64]);
+    s.ints(false, &|| "buffer.palette_mode".into(), &[b.palette_mode.to_byte() as i64]);
+    s.ints(false, &|| "buffer.font_mode".into(), &[b.font_mode.to_byte() as i64]);
+    s.ints(false, &|| "buffer.is_terminal_buffer".into(), &[b.is_terminal_buffer as i64]);
+    // palette
+    s.ints(false, &|| "palette.len".into(), &[b.palette.len() as i64]);
+    for i in 0..b.palette.len().min(512) {
+        let (r, g, bl) = b.palette.get_rgb(i as u32);
+        s.ints(false, &|| format!("palette[{i}]"), &[r as i64, g as i64, bl as i64]);
+    }
+    s.text(false, &|| "palette.title".into(), &b.palette.title);
+    s.text(false, &|| "palette.author".into(), &b.palette.author);
+    s.text(false, &|| "palette.description".into(), &b.palette.description);
+    // font table
+    let mut slots: Vec<usize> = b.font_iter().map(|(k, _)| *k).collect();
+    slots.sort_unstable();
+    s.ints(false, &|| "fonts.slots".into(), &slots.iter().map(|x| *x as i64).collect::<Vec<_>>());
+    for k in &slots {
+        if let Some(f) = b.get_font(*k) {
+            s.text(false, &|| format!("font[{k}].name"), &f.name);
+            s.ints(false, &|| format!("font[{k}].size,length,glyphs"), &[f.size.width as i64, f.size.height as i64, f.length as i64, f.glyphs.len() as i64]);
+            s.ints(false, &|| format!("font[{k}].glyph-data-hash"), &[glyph_hash(f)]);
+        }
+    }
+    // SAUCE
+    match b.get_sauce() {
+        None => s.ints(false, &|| "sauce.present".into(), &[0]),
+        Some(sd) => {
+            s.ints(false, &|| "sauce.present".into(), &[1]);
+            s.text(false, &|| "sauce.title".into(), &sd.title.to_string());
+            s.text(false, &|| "sauce.author".into(), &sd.author.to_string());
+            s.text(false, &|| "sauce.group".into(), &sd.group.to_string());
+            s.text(false, &|| "sauce.comments".into(), &sd.comments.iter().map(|c| c.to_string()).collect::<Vec<_>>().join("|"));
+            s.text(false, &|| "sauce.data_type".into(), &format!("{:?}", sd.data_type));
+            s.text(false, &|| "sauce.file_type".into(), &format!("{:?}", sd.sauce_file_type));
+            s.text(false, &|| "sauce.font".into(), &format!("{:?}", sd.font_opt));
+            s.ints(false, &|| "sauce.flags(ice,letter_spacing,aspect)".into(), &[sd.use_ice as i64, sd.use_letter_spacing as i64, sd.use_aspect_ratio as i64]);
+            s.text(false, &|| "sauce.creation_time".into(), &sd.creation_time.to_string());
+            // mirror of the buffer size, rewritten by Buffer::set_size: not part of the property's "SAUCE data"
+            s.ints(true, &|| "sauce.buffer_size".into(), &[sd.buffer_size.width as i64, sd.buffer_size.height as i64]);
+        }
+    }
+    // layers
+    s.ints(false, &|| "layers.len".into(), &[b.layers.len() as i64]);
+    for (i, l) in b.layers.iter().enumerate() {
+        let p = &l.properties;
+        s.text(false, &|| format!("layer[{i}].title"), &p.title);
+        let col = match &p.color { None => vec![-1], Some(c) => { let (r, g, b) = c.get_rgb(); vec![r as i64, g as i64, b as i64] } };
+        s.ints(false, &|| format!("layer[{i}].color"), &col);
+        s.ints(false, &|| format!("layer[{i}].flags(visible,locked,position_locked,alpha_locked,has_alpha)"),
+            &[p.is_visible as i64, p.is_locked as i64, p.is_position_locked as i64, p.is_alpha_channel_locked as i64, p.has_alpha_channel as i64]);
+        s.ints(false, &|| format!("layer[{i}].mode"), &[match p.mode { Mode::Normal => 0, Mode::Chars => 1, Mode::Attributes => 2 }]);
+        s.ints(false, &|| format!("layer[{i}].offset"), &[p.offset.x as i64, p.offset.y as i64]);
+        s.ints(false, &|| format!("layer[{i}].size"), &[l.get_width() as i64, l.get_height() as i64]);
+        s.ints(false, &|| format!("layer[{i}].role"), &[match l.role { Role::Normal => 0, Role::PastePreview => 1, Role::PasteImage => 2, Role::Image => 3 }]);
+        s.ints(false, &|| format!("layer[{i}].transparency"), &[l.transparency as i64]);
+        s.ints(false, &|| format!("layer[{i}].default_font_page"), &[l.default_font_page as i64]);
+        let (w, h) = (l.get_width().clamp(0, 64), l.get_height().clamp(0, 64));
+        for y in 0..h {
+            for x in 0..w {
+                let ch = l.get_char((x, y));
+                if ch.is_visible() {
+                    s.ints(false, &|| format!("layer[{i}].cell({x},{y})"), &cell(ch));
+                } else {
+                    s.ints(false, &|| format!("layer[{i}].cell({x},{y})"), &[-1]); // invisible cells compare as invisible only
+                }
+            }
+        }
+        // strict part: what is stored but currently out of sight
+        let po = l.get_preview_offset();
+        s.ints(true, &|| format!("layer[{i}].preview_offset"), &match po { None => vec![], Some(p) => vec![p.x as i64, p.y as i64] });
+        s.ints(true, &|| format!("layer[{i}].sixels,hyperlinks"), &[l.sixels.len() as i64, l.hyperlinks().len() as i64]);
+        for (y, line) in l.lines.iter().enumerate().take(128) {
+            for (x, ch) in line.chars.iter().enumerate().take(128) {
+                if (x as i32 >= l.get_width() || y as i32 >= l.get_height()) && ch.is_visible() {
+                    s.ints(true, &|| format!("layer[{i}].stored-outside-size({x},{y})"), &cell(*ch));
+                }
+            }
+        }
+    }
+}
+
+fn digests(es: &EditState) -> (Value, Value) {
+    let mut h = HashSink::new();
+    snap(es, &mut h);
+    h.digests()
+}
+
+fn full_snapshot(es: &EditState) -> TextSink {
+    let mut t = TextSink::default();
+    snap(es, &mut t);
+    t
+}
+
+/// First differing fields between two full snapshots (weak fields first).
+fn diff(want: &TextSink, got: &TextSink, strict: bool) -> Vec<String> {
+    use std::collections::BTreeMap;
+    let sel = |t: &TextSink| t.items.iter().filter(|i| i.0 == strict).map(|i| (i.1.clone(), i.2.clone())).collect::<Vec<_>>();
+    let (a, b) = (sel(want), sel(got));
+    let mb: BTreeMap<_, _> = b.iter().cloned().collect();
+    let ma: BTreeMap<_, _> = a.iter().cloned().collect();
+    let mut res = vec![];
+    for (k, v) in &a {
+        match mb.get(k) {
+            Some(v2) if v2 == v => {}
+            Some(v2) => res.push(format!("{k}: expected {v}, observed {v2}")),
+            None => res.push(format!("{k}: expected {v}, field absent")),
+        }
+    }
+    for (k, v) in &b {
+        if !ma.contains_key(k) {
+            res.push(format!("{k}: not expected, observed {v}"));
+        }
+    }
+    res
+}
+
+// ------------------------------------------------------------------------------------------------ seed documents
+fn chr(c: i64) -> AttributedChar {
+    let mk = |ch: u8, fg: u32, bg: u32, attr: u16, page: usize| {
+        let mut a = TextAttribute::new(fg, bg);
+        a.attr = attr;
+        a.set_font_page(page);
+        AttributedChar::new(ch as char, a)
+    };
+    match c.rem_euclid(10) {
+        0 => mk(b'A', 7, 0, 0, 0),
+        1 => mk(219, 12, 1, 0, 0),
+        2 => mk(b' ', 7, 0, 0, 0),
+        3 => mk(220, 14, 9, 0, 0),
+        4 => mk(b'/', 2, 3, attribute::BLINK, 0),
+        5 => AttributedChar::invisible(),
+        6 => mk(b'x', 7, 0, 0, 1),
+        7 => mk(179, 3, 0, 0, 0),
+        8 => mk(b'q', 15, 4, attribute::BOLD | attribute::UNDERLINE, 0),
+        _ => mk(201, 11, 0, 0, 0),
+    }
+}
+
+fn fill(l: &mut Layer, salt: i64, sparse: bool) {
+    for y in 0..l.get_height() {
+        for x in 0..l.get_width() {
+            let k = (x as i64) * 3 + (y as i64) * 7 + salt;
+            if sparse && k % 3 == 0 {
+                continue;
+            }
+            l.set_char((x, y), chr(k));
+        }
+    }
+}
+
+/// cells on font page 1 are only meaningful in documents that have a font in slot 1
+fn strip_font_pages(buf: &mut Buffer) {
+    for l in &mut buf.layers {
+        for line in &mut l.lines {
+            for ch in &mut line.chars {
+                if ch.is_visible() && ch.get_font_page() != 0 {
+                    ch.set_font_page(0);
+                }
+            }
+        }
+    }
+}
+
+fn alpha_layer(title: &str, size: (i32, i32), off: (i32, i32), salt: i64) -> Layer {
+    let mut l = Layer::new(title, size);
+    l.properties.has_alpha_channel = true;
+    l.set_offset(off);
+    fill(&mut l, salt, true);
+    l
+}
+
+fn sauce(k: i64, size: Size) -> Option<SauceData> {
+    if k.rem_euclid(3) == 0 {
+        return None;
+    }
+    let mut s = SauceData::default();
+    if k.rem_euclid(3) == 1 {
+        s.title = SauceString::from("Title one");
+        s.author = SauceString::from("me");
+        s.use_ice = true;
+    } else {
+        s.title = SauceString::from("Another");
+        s.group = SauceString::from("grp");
+        s.comments.push(SauceString::from("a comment"));
+        s.use_letter_spacing = true;
+        s.font_opt = Some("IBM VGA".to_string());
+    }
+    s.buffer_size = size;
+    Some(s)
+}
+
+fn palette(k: i64) -> Palette {
+    match k.rem_euclid(3) {
+        0 => Palette::dos_default(),
+        1 => {
+            let mut p = Palette::dos_default();
+            p.push(Color::new(1, 2, 3));
+            p.push(Color::new(250, 128, 0));
+            p.title = "eighteen".into();
+            p
+        }
+        _ => {
+            let mut p = Palette::new();
+            for i in 0..16u8 {
+                p.push(Color::new(i * 16, 255 - i * 16, i));
+            }
+            p
+        }
+    }
+}
+
+fn font(k: i64) -> BitFont {
+    BitFont::from_ansi_font_page(3 + k.rem_euclid(3) as usize).unwrap_or_default()
+}
+
+/// Seed documents: 1..=3 layers, alpha / offset / hidden / locked variants, ragged rows, stored cells beyond the size,
+/// all font modes, SAUCE, extended palette.
+pub fn seed_doc(id: usize) -> EditState {
+    let mut buf = Buffer::new((W, H));
+    fill(&mut buf.layers[0], id as i64, false);
+    match id % N_SEEDS {
+        0 => {}
+        1 => buf.layers.push(alpha_layer("top", (4, 3), (2, 1), 1)),
+        2 => {
+            let mut hidden = alpha_layer("hidden", (5, 4), (-1, -1), 2);
+            hidden.properties.is_visible = false;
+            buf.layers.push(hidden);
+            let mut locked = alpha_layer("locked", (3, 2), (6, 4), 4);
+            locked.properties.is_locked = true;
+            buf.layers.push(locked);
+        }
+        3 => {
+            let mut a = alpha_layer("alpha-locked", (W, H), (0, 0), 5);
+            a.properties.is_alpha_channel_locked = true;
+            a.properties.mode = Mode::Chars;
+            buf.layers.push(a);
+            let mut p = alpha_layer("pos-locked", (4, 4), (1, 0), 6);
+            p.properties.is_position_locked = true;
+            p.properties.mode = Mode::Attributes;
+            p.properties.color = Some(Color::new(9, 8, 7));
+            buf.layers.push(p);
+        }
+        4 => {
+            buf.layers[0].lines.truncate(3);
+            buf.layers[0].lines[1].chars.truncate(3);
+            buf.layers[0].lines[2] = Line::new();
+            buf.font_mode = FontMode::Unlimited;
+            buf.set_font(1, font(1));
+            buf.palette = palette(1);
+            buf.palette_mode = PaletteMode::RGB;
+            buf.layers[0].set_char((5, 0), AttributedChar::new('Z', TextAttribute::new(17, 16)));
+            buf.ice_mode = IceMode::Ice;
+            buf.set_sauce(sauce(1, Size::new(W, H)), false);
+        }
+        5 => {
+            buf.layers[0].set_size((6, 4)); // rows and columns stored beyond the current size
+            buf.layers.push(alpha_layer("full", (W, H), (1, 1), 7));
+        }
+        6 => {
+            buf.font_mode = FontMode::Single;
+            buf.ice_mode = IceMode::Blink;
+            buf.palette_mode = PaletteMode::Free16;
+            let mut l = alpha_layer("blanks", (W, H), (0, 0), 8);
+            for x in 0..W {
+                l.set_char((x, 2), chr(2));
+            }
+            buf.layers.push(l);
+        }
+        _ => {
+            buf.font_mode = FontMode::FixedSize;
+            buf.set_font(1, font(0));
+            buf.layers.push(alpha_layer("second", (W, H), (1, 0), 9));
+            buf.layers.push(alpha_layer("third", (W, H), (0, 1), 10));
+        }
+    }
+    if !buf.has_font(1) {
+        strip_font_pages(&mut buf);
+    }
+    EditState::from_buffer(buf)
+}
+
+// ------------------------------------------------------------------------------------------------ operations
+/// The public editing operations that can be driven, each with in-range and boundary parameter vectors
+/// (for the 8x5 seed documents with up to 3-4 layers).
+pub fn op_table() -> Vec<(&'static str, Vec<Vec<i64>>)> {
+    let v = |a: &[&[i64]]| a.iter().map(|x| x.to_vec()).collect::<Vec<_>>();
+    vec![
+        // edit_operations.rs
+        ("set_char", v(&[&[0, 0, 0, 0], &[0, 7, 4, 1], &[1, 1, 1, 3], &[2, 0, 0, 5], &[1, 3, 2, 8], &[0, 8, 5, 0], &[0, 2, 1, 2]])),
+        ("set_char_mirror", v(&[&[0, 1, 1, 1], &[1, 0, 0, 4]])),
+        ("swap_char", v(&[&[0, 0, 0, 7, 4], &[1, 0, 0, 1, 1], &[0, 2, 2, 2, 2], &[0, 0, 0, 8, 0]])),
+        ("paste", v(&[&[0, 1, 1, 2, 2], &[1, -1, -1, 3, 2], &[2, 6, 3, 4, 4]])),
+        ("resize_buffer", v(&[&[0, 10, 6], &[0, 4, 3], &[1, 10, 6], &[1, 4, 3], &[1, 8, 5], &[0, 1, 1], &[1, 1, 1]])),
+        ("center_line", v(&[&[0, 1], &[1, 0], &[2, 4]])),
+        ("justify_line_left", v(&[&[0, 1], &[1, 0], &[2, 4]])),
+        ("justify_line_right", v(&[&[0, 1], &[1, 0], &[2, 4]])),
+        ("delete_row", v(&[&[0, 0], &[0, 4], &[1, 1], &[0, 5], &[2, 2]])),
+        ("insert_row", v(&[&[0, 0], &[0, 4], &[1, 1], &[0, 5], &[2, 2]])),
+        ("insert_column", v(&[&[0, 0], &[0, 7], &[1, 2], &[0, 8]])),
+        ("delete_column", v(&[&[0, 0], &[0, 7], &[1, 2], &[0, 8]])),
+        ("erase_row", v(&[&[0, 3, 2], &[1, 0, 0]])),
+        ("erase_row_to_start", v(&[&[0, 3, 2], &[1, 0, 0]])),
+        ("erase_row_to_end", v(&[&[0, 3, 2], &[1, 7, 1]])),
+        ("erase_column", v(&[&[0, 3, 2], &[1, 0, 0]])),
+        ("erase_column_to_start", v(&[&[0, 3, 2], &[1, 1, 0]])),
+        ("erase_column_to_end", v(&[&[0, 3, 2], &[1, 1, 4]])),
+        ("undo_caret_position", v(&[&[3, 2]])),
+        ("switch_to_palette", v(&[&[0], &[1], &[2]])),
+        ("update_sauce_data", v(&[&[0], &[1], &[2]])),
+        // layer_operations.rs
+        ("add_new_layer", v(&[&[0], &[1], &[2], &[5]])),
+        ("remove_layer", v(&[&[0], &[1], &[2], &[3]])),
+        ("raise_layer", v(&[&[0], &[1], &[2]])),
+        ("lower_layer", v(&[&[0], &[1], &[2], &[3]])),
+        ("duplicate_layer", v(&[&[0], &[1], &[2]])),
+        ("clear_layer", v(&[&[0], &[1], &[2]])),
+        ("anchor_layer", v(&[&[1], &[2]])),
+        ("add_floating_layer", v(&[&[1], &[2]])),
+        ("merge_layer_down", v(&[&[0], &[1], &[2], &[3]])),
+        ("toggle_layer_visibility", v(&[&[0], &[1], &[2]])),
+        ("move_layer", v(&[&[0, 1, 1], &[1, -2, 0], &[1, 0, 0], &[2, 7, 4]])),
+        ("set_layer_size", v(&[&[0, 6, 4], &[0, 10, 7], &[1, 2, 2], &[1, 8, 5], &[2, 1, 1], &[0, 8, 5], &[1, 0, 0]])),
+        ("stamp_layer_down", v(&[&[1], &[2], &[0]])),
+        ("rotate_layer", v(&[&[0], &[1], &[2]])),
+        ("make_layer_transparent", v(&[&[0], &[1], &[2]])),
+        ("update_layer_properties", v(&[&[0, 0], &[1, 1], &[1, 2], &[1, 3], &[2, 4], &[0, 5], &[1, 6], &[1, 7], &[3, 0]])),
+        // area_operations.rs
+        ("justify_left", v(&[&[0], &[1], &[2]])),
+        ("center", v(&[&[0], &[1], &[2]])),
+        ("justify_right", v(&[&[0], &[1], &[2]])),
+        ("flip_x", v(&[&[0], &[1], &[2]])),
+        ("flip_y", v(&[&[0], &[1], &[2]])),
+        ("crop", v(&[&[]])),
+        ("crop_rect", v(&[&[1, 1, 5, 3], &[0, 0, 8, 5], &[-1, -1, 4, 4], &[6, 3, 6, 6], &[2, 2, 0, 0]])),
+        ("erase_selection", v(&[&[0], &[1]])),
+        ("scroll_area_up", v(&[&[0], &[1], &[2]])),
+        ("scroll_area_down", v(&[&[0], &[1], &[2]])),
+        ("scroll_area_left", v(&[&[0], &[1], &[2]])),
+        ("scroll_area_right", v(&[&[0], &[1], &[2]])),
+        // selection_operations.rs
+        ("set_selection", v(&[&[1, 1, 5, 3, 0], &[0, 0, 8, 5, 0], &[2, 0, 4, 5, 0], &[-2, -1, 3, 2, 0], &[1, 1, 5, 3, 1], &[3, 1, 6, 4, 2], &[0, 2, 8, 3, 3], &[6, 3, 12, 9, 0]])),
+        ("clear_selection", v(&[&[]])),
+        ("deselect", v(&[&[]])),
+        ("add_selection_to_mask", v(&[&[]])),
+        ("inverse_selection", v(&[&[]])),
+        ("enumerate_selections", v(&[&[0], &[1], &[2]])),
+        // font_operations.rs
+        ("switch_to_font_page", v(&[&[0], &[1], &[2]])),
+        ("add_ansi_font", v(&[&[1], &[2], &[0], &[43]])),
+        ("set_ansi_font", v(&[&[1], &[5]])),
+        ("set_sauce_font", v(&[&[0], &[1], &[2]])),
+        ("add_font", v(&[&[0], &[1]])),
+        ("set_font", v(&[&[0], &[1]])),
+        ("set_palette_mode", v(&[&[0], &[1], &[2], &[3]])),
+        ("set_ice_mode", v(&[&[0], &[1], &[2]])),
+        ("replace_font_usage", v(&[&[0, 1], &[1, 0], &[1, 2]])),
+        ("change_font_slot", v(&[&[0, 1], &[1, 2], &[1, 0], &[2, 3]])),
+        ("remove_font", v(&[&[0], &[1], &[2]])),
+    ]
+}
+
+pub enum OpRes {
+    Ok,
+    Err(String),
+    Skip,
+}
+
+fn clipboard_block(x: i32, y: i32, w: u32, h: u32, page1: bool) -> Vec<u8> {
+    // the format of EditState::get_clipboard_data
+    let mut data = vec![0u8];
+    data.extend(i32::to_le_bytes(x));
+    data.extend(i32::to_le_bytes(y));
+    data.extend(u32::to_le_bytes(w));
+    data.extend(u32::to_le_bytes(h));
+    for j in 0..h {
+        for i in 0..w {
+            let mut ch = chr((i * 5 + j * 3 + 1) as i64);
+            if !page1 { ch.set_font_page(0); }
+            data.extend(u16::to_le_bytes(ch.ch as u16));
+            data.extend(u16::to_le_bytes(ch.attribute.attr));
+            data.extend(u16::to_le_bytes(ch.attribute.get_font_page() as u16));
+            data.extend(u32::to_le_bytes(ch.attribute.get_background()));
+            data.extend(u32::to_le_bytes(ch.attribute.get_foreground()));
+        }
+    }
+    data
+}
+
+fn props_variant(p: &Properties, k: i64) -> Properties {
+    let mut n = p.clone();
+    match k.rem_euclid(8) {
+        0 => n.is_locked = !n.is_locked,
+        1 => {
+            n.title = format!("{}*", n.title);
+            n.color = Some(Color::new(10, 20, 30));
+        }
+        2 => n.has_alpha_channel = !n.has_alpha_channel,
+        3 => n.is_alpha_channel_locked = !n.is_alpha_channel_locked,
+        4 => n.is_position_locked = !n.is_position_locked,
+        5 => n.mode = if n.mode == Mode::Normal { Mode::Chars } else { Mode::Normal },
+        6 => n.offset = Position::new(n.offset.x + 1, n.offset.y - 1),
+        _ => n.is_visible = !n.is_visible,
+    }
+    n
+}
+
+/// One public call (preceded, where the operation reads them, by the non-undoable context setters
+/// `set_current_layer` and caret position, which are not part of the document).
+pub fn apply(es: &mut EditState, name: &str, a: &[i64]) -> OpRes {
+    let g = |i: usize| a.get(i).copied().unwrap_or(0);
+    let gi = |i: usize| g(i) as i32;
+    let gu = |i: usize| g(i).max(0) as usize;
+    let cur = |es: &mut EditState, l: i64| es.set_current_layer(l.max(0) as usize);
+    let caret = |es: &mut EditState, x: i32, y: i32| es.get_caret_mut().set_position(Position::new(x, y));
+    let r = match name {
+        "set_char" | "set_char_mirror" => {
+            cur(es, g(0));
+            es.set_mirror_mode(name == "set_char_mirror");
+            let mut ch = chr(g(3));
+            if !es.get_buffer().has_font(ch.get_font_page()) { ch.set_font_page(0); } // a cell may only name a font the document has
+            let r = es.set_char((gi(1), gi(2)), ch);
+            es.set_mirror_mode(false);
+            r
+        }
+        "swap_char" => { cur(es, g(0)); es.swap_char((gi(1), gi(2)), (gi(3), gi(4))) }
+        "paste" => { cur(es, g(0)); let p1 = es.get_buffer().has_font(1); es.paste_clipboard_data(&clipboard_block(gi(1), gi(2), gu(3) as u32, gu(4) as u32, p1)) }
+        "resize_buffer" => es.resize_buffer(g(0) != 0, (gi(1), gi(2))),
+        "center_line" => { cur(es, g(0)); caret(es, 0, gi(1)); es.center_line() }
+        "justify_line_left" => { cur(es, g(0)); caret(es, 0, gi(1)); es.justify_line_left() }
+        "justify_line_right" => { cur(es, g(0)); caret(es, 0, gi(1)); es.justify_line_right() }
+        "delete_row" => { cur(es, g(0)); caret(es, 0, gi(1)); es.delete_row() }
+        "insert_row" => { cur(es, g(0)); caret(es, 0, gi(1)); es.insert_row() }
+        "insert_column" => { cur(es, g(0)); caret(es, gi(1), 0); es.insert_column() }
+        "delete_column" => { cur(es, g(0)); caret(es, gi(1), 0); es.delete_column() }
+        "erase_row" => { cur(es, g(0)); caret(es, gi(1), gi(2)); es.erase_row() }
+        "erase_row_to_start" => { cur(es, g(0)); caret(es, gi(1), gi(2)); es.erase_row_to_start() }
+        "erase_row_to_end" => { cur(es, g(0)); caret(es, gi(1), gi(2)); es.erase_row_to_end() }
+        "erase_column" => { cur(es, g(0)); caret(es, gi(1), gi(2)); es.erase_column() }
+        "erase_column_to_start" => { cur(es, g(0)); caret(es, gi(1), gi(2)); es.erase_column_to_start() }
+        "erase_column_to_end" => { cur(es, g(0)); caret(es, gi(1), gi(2)); es.erase_column_to_end() }
+        "undo_caret_position" => { caret(es, gi(0), gi(1)); es.undo_caret_position() }
+        "switch_to_palette" => es.switch_to_palette(palette(g(0))),
+        "update_sauce_data" => { let sz = es.get_buffer().get_size(); es.update_sauce_data(sauce(g(0), sz)) }
+        "add_new_layer" => es.add_new_layer(gu(0)),
+        "remove_layer" => es.remove_layer(gu(0)),
+        "raise_layer" => es.raise_layer(gu(0)),
+        "lower_layer" => es.lower_layer(gu(0)),
+        "duplicate_layer" => es.duplicate_layer(gu(0)),
+        "clear_layer" => es.clear_layer(gu(0)),
+        "anchor_layer" => { cur(es, g(0)); es.anchor_layer() }
+        "add_floating_layer" => {
+            // only meaningful on a freshly pasted (floating) layer - anything else is outside its contract
+            cur(es, g(0));
+            match es.get_cur_layer() { Some(l) if l.role.is_paste() => es.add_floating_layer(), _ => return OpRes::Skip }
+        }
+        "merge_layer_down" => { cur(es, g(0)); es.merge_layer_down(gu(0)) }
+        "toggle_layer_visibility" => es.toggle_layer_visibility(gu(0)),
+        "move_layer" => { cur(es, g(0)); es.move_layer(Position::new(gi(1), gi(2))) }
+        "set_layer_size" => es.set_layer_size(gu(0), (gi(1), gi(2))),
+        "stamp_layer_down" => { cur(es, g(0)); es.stamp_layer_down() }
+        "rotate_layer" => { cur(es, g(0)); es.rotate_layer() }
+        "make_layer_transparent" => { cur(es, g(0)); es.make_layer_transparent() }
+        "update_layer_properties" => {
+            let p = match es.get_buffer().layers.get(gu(0)) { Some(l) => props_variant(&l.properties, g(1)), None => Properties::default() };
+            es.update_layer_properties(gu(0), p)
+        }
+        "justify_left" => { cur(es, g(0)); es.justify_left() }
+        "center" => { cur(es, g(0)); es.center() }
+        "justify_right" => { cur(es, g(0)); es.justify_right() }
+        "flip_x" => { cur(es, g(0)); es.flip_x() }
+        "flip_y" => { cur(es, g(0)); es.flip_y() }
+        "crop" => es.crop(),
+        "crop_rect" => es.crop_rect(Rectangle::from(gi(0), gi(1), gi(2), gi(3))),
+        "erase_selection" => { cur(es, g(0)); es.erase_selection() }
+        "scroll_area_up" => { cur(es, g(0)); es.scroll_area_up() }
+        "scroll_area_down" => { cur(es, g(0)); es.scroll_area_down() }
+        "scroll_area_left" => { cur(es, g(0)); es.scroll_area_left() }
+        "scroll_area_right" => { cur(es, g(0)); es.scroll_area_right() }
+        "set_selection" => {
+            let (x0, y0, x1, y1) = (gi(0), gi(1), gi(2).max(gi(0)), gi(3).max(gi(1)));
+            let mut sel: Selection = Rectangle::from_coords(x0, y0, x1, y1).into();
+            match g(4) {
+                1 => sel.shape = Shape::Lines,
+                2 => sel.add_type = AddType::Subtract,
+                3 => sel.add_type = AddType::Add,
+                _ => {}
+            }
+            es.set_selection(sel)
+        }
+        "clear_selection" => es.clear_selection(),
+        "deselect" => es.deselect(),
+        "add_selection_to_mask" => es.add_selection_to_mask(),
+        "inverse_selection" => es.inverse_selection(),
+        "enumerate_selections" => {
+            match g(0) {
+                0 => es.enumerate_selections(|_, ch, _| Some(ch.is_visible() && !ch.is_transparent())),
+                1 => es.enumerate_selections(|_, _, _| None),
+                _ => es.enumerate_selections(|_, _, sel| Some(!sel)),
+            }
+            Ok(())
+        }
+        "switch_to_font_page" => es.switch_to_font_page(gu(0)),
+        "add_ansi_font" => es.add_ansi_font(gu(0)),
+        "set_ansi_font" => es.set_ansi_font(gu(0)),
+        "set_sauce_font" => es.set_sauce_font(["IBM VGA", "IBM VGA50", "no such font"][gu(0) % 3]),
+        "add_font" => es.add_font(font(g(0))),
+        "set_font" => es.set_font(font(g(0))),
+        "set_palette_mode" => es.set_palette_mode(PaletteMode::from_byte(g(0) as u8)),
+        "set_ice_mode" => es.set_ice_mode(IceMode::from_byte(g(0) as u8)),
+        "replace_font_usage" => es.replace_font_usage(gu(0), gu(1)),
+        "change_font_slot" => es.change_font_slot(gu(0), gu(1)),
+        "remove_font" => es.remove_font(gu(0)),
+        _ => return OpRes::Err(format!("unknown operation {name}")),
+    };
+    match r {
+        Ok(()) => OpRes::Ok,
+        Err(e) => OpRes::Err(e.to_string()),
+    }
+}
+
+/// Input class of one call, observed just before it is made: which kind of layer it targets and whether its
+/// position / slot arguments are inside the current ranges. Only used to NAME findings (keys), never to judge.
+///   A = target layer has a locked alpha channel, L = is locked, H = is hidden, oob = a position outside the target layer,
+///   cp = caret font page != 0, occ = destination font slot already occupied
+fn classify(es: &EditState, name: &str, a: &[i64]) -> String {
+    let g = |i: usize| a.get(i).copied().unwrap_or(0);
+    let b = es.get_buffer();
+    let n = b.layers.len();
+    let current_layer_ops = ["set_char", "set_char_mirror", "swap_char", "center_line", "justify_line_left", "justify_line_right", "delete_row", "insert_row",
+        "insert_column", "delete_column", "erase_row", "erase_row_to_start", "erase_row_to_end", "erase_column", "erase_column_to_start", "erase_column_to_end",
+        "anchor_layer", "move_layer", "stamp_layer_down", "rotate_layer", "make_layer_transparent", "justify_left", "center", "justify_right", "flip_x", "flip_y",
+        "erase_selection", "scroll_area_up", "scroll_area_down", "scroll_area_left", "scroll_area_right"];
+    let indexed_ops = ["remove_layer", "raise_layer", "lower_layer", "duplicate_layer", "clear_layer", "merge_layer_down", "toggle_layer_visibility", "set_layer_size", "update_layer_properties"];
+    let target = if n == 0 { None } else if current_layer_ops.contains(&name) { Some((g(0).max(0) as usize).min(n - 1)) } else if indexed_ops.contains(&name) && (g(0) as usize) < n && g(0) >= 0 { Some(g(0) as usize) } else { None };
+    let mut cls: Vec<&str> = vec![];
+    if let Some(t) = target {
+        let l = &b.layers[t];
+        if l.properties.has_alpha_channel && l.properties.is_alpha_channel_locked { cls.push("A"); }
+        if l.properties.is_locked { cls.push("L"); }
+        if !l.properties.is_visible { cls.push("H"); }
+        let inside = |x: i64, y: i64| x >= 0 && y >= 0 && x < l.get_width() as i64 && y < l.get_height() as i64;
+        let oob = match name {
+            "set_char" | "set_char_mirror" => !inside(g(1), g(2)),
+            "swap_char" => !inside(g(1), g(2)) || !inside(g(3), g(4)),
+            "delete_row" | "insert_row" => g(1) < 0 || g(1) >= l.get_height() as i64,
+            "insert_column" | "delete_column" => g(1) < 0 || g(1) >= l.get_width() as i64,
+            _ => false,
+        };
+        if oob { cls.push("oob"); }
+    }
+    match name {
+        "set_font" | "set_ansi_font" | "set_sauce_font" => if es.get_caret().get_font_page() != 0 { cls.push("cp") },
+        "add_ansi_font" => if b.has_font(g(0).max(0) as usize) { cls.push("occ") },
+        "change_font_slot" => if b.has_font(g(1).max(0) as usize) { cls.push("occ") },
+        _ => {}
+    }
+    cls.join(",")
+}
+
+// ------------------------------------------------------------------------------------------------ cases
+#[derive(Clone, Debug)]
+pub enum Step {
+    Op(String, Vec<i64>),
+    Undo,
+    Redo,
+    Begin,
+    EndDrop,
+    EndExplicit,
+    UndoAll,
+    RedoAll,
+}
+
+#[derive(Clone, Debug)]
+pub struct Case {
+    pub seed: usize,
+    pub src: &'static str,
+    pub steps: Vec<Step>,
+}
+
+#[derive(Default)]
+pub struct Stats {
+    pub cases: usize,
+    pub ops_ok: usize,
+    pub ops_err: usize,
+    pub ops_panic: usize,
+    pub ops_skip: usize,
+    pub undo: usize,
+    pub redo: usize,
+    pub groups: usize,
+    pub undo_fail: usize,
+    pub per_op_ok: std::collections::BTreeMap<String, usize>,
+    pub per_op_cut: std::collections::BTreeMap<String, usize>,
+    pub op_panic_sites: std::collections::BTreeMap<String, usize>,
+}
+
+impl Stats {
+    fn merge(&mut self, o: Stats) {
+        self.cases += o.cases;
+        self.ops_ok += o.ops_ok;
+        self.ops_err += o.ops_err;
+        self.ops_panic += o.ops_panic;
+        self.ops_skip += o.ops_skip;
+        self.undo += o.undo;
+        self.redo += o.redo;
+        self.groups += o.groups;
+        self.undo_fail += o.undo_fail;
+        for (k, v) in o.per_op_ok { *self.per_op_ok.entry(k).or_default() += v; }
+        for (k, v) in o.per_op_cut { *self.per_op_cut.entry(k).or_default() += v; }
+        for (k, v) in o.op_panic_sites { *self.op_panic_sites.entry(k).or_default() += v; }
+    }
+}
+
+/// Observer of a run: the trace writer, or the explainer.
+trait Watch {
+    fn event(&mut self, ev: Value, es: &EditState);
+}
+
+struct TraceWatch<'a> {
+    out: &'a mut Out,
+}
+
+impl Watch for TraceWatch<'_> {
+    fn event(&mut self, mut ev: Value, es: &EditState) {
+        if ev.get("doc").is_none() {
+            let (d, x) = digests(es);
+            ev["doc"] = d;
+            ev["x"] = x;
+        }
+        self.out.ev(&ev);
+    }
+}
+
+/// Runs one case against a fresh EditState. Every engine call goes through `guard`.
+fn run_case(case: &Case, id: usize, w: &mut dyn Watch, st: &mut Stats) {
+    st.cases += 1;
+    let mut es = seed_doc(case.seed);
+    let mut guards: Vec<AtomicUndoGuard> = Vec::new();
+    let obs = |es: &EditState| -> Option<(usize, i64)> { guard(|| (es.undo_stack_len(), es.can_redo() as i64)).ok() };
+    let Some((ul, cr)) = obs(&es) else { return };
+    w.event(json!({"ev":"reset","seed":case.seed,"case":id,"src":case.src,"ul":ul,"cr":cr,"layers":es.get_buffer().layers.len()}), &es);
+    let mut queue: std::collections::VecDeque<Step> = case.steps.iter().cloned().collect();
+    let mut budget = 400;
+    'steps: while let Some(step) = queue.pop_front() {
+        budget -= 1;
+        if budget == 0 {
+            break;
+        }
+        match step {
+            Step::Op(name, args) => {
+                let cls = guard(|| classify(&es, &name, &args)).unwrap_or_default();
+                let res = guard(|| apply(&mut es, &name, &args));
+                let (r, extra) = match res {
+                    Ok(OpRes::Ok) => ("ok", json!({})),
+                    Ok(OpRes::Skip) => ("skip", json!({})),
+                    Ok(OpRes::Err(e)) => ("err", json!({"msg": e.chars().take(80).collect::<String>()})),
+                    Err(p) => ("panic", json!({"site": panic_site(&p)})),
+                };
+                match r {
+                    "ok" => { st.ops_ok += 1; *st.per_op_ok.entry(name.clone()).or_default() += 1; }
+                    "skip" => st.ops_skip += 1,
+                    "err" => { st.ops_err += 1; *st.per_op_cut.entry(name.clone()).or_default() += 1; }
+                    _ => { st.ops_panic += 1; *st.per_op_cut.entry(name.clone()).or_default() += 1; *st.op_panic_sites.entry(extra["site"].as_str().unwrap_or("?").to_string()).or_default() += 1; }
+                }
+                if r == "ok" || r == "skip" {
+                    let Some((ul, cr)) = obs(&es) else { break 'steps };
+                    let mut ev = json!({"ev":"op","op":name,"args":args,"r":r,"ul":ul,"cr":cr});
+                    if !cls.is_empty() { ev["cls"] = json!(cls); }
+                    let snap_ok = guard(|| w.event(ev.take(), &es));
+                    if snap_ok.is_err() { break 'steps; }
+                } else {
+                    // the history is cut here: the document may be half-edited, nothing after this is judged
+                    let mut ev = json!({"ev":"op","op":name,"args":args,"r":r,"ul":0,"cr":0,"doc":[0, 0],"x":[0, 0]});
+                    if let Some(o) = extra.as_object() { for (k, v) in o { ev[k] = v.clone(); } }
+                    w.event(ev, &es);
+                    break 'steps;
+                }
+            }
+            Step::Undo | Step::Redo => {
+                if !guards.is_empty() {
+                    continue; // never undo inside an open group (the generator does not produce this)
+                }
+                let is_undo = matches!(step, Step::Undo);
+                if is_undo { st.undo += 1 } else { st.redo += 1 }
+                let res = guard(|| if is_undo { es.undo() } else { es.redo() });
+                let name = if is_undo { "undo" } else { "redo" };
+                match res {
+                    Ok(Ok(())) => {
+                        let Some((ul, cr)) = obs(&es) else { break 'steps };
+                        if guard(|| w.event(json!({"ev":name,"r":"ok","ul":ul,"cr":cr}), &es)).is_err() { break 'steps; }
+                    }
+                    Ok(Err(e)) => {
+                        st.undo_fail += 1;
+                        w.event(json!({"ev":name,"r":"err","msg":e.to_string().chars().take(80).collect::<String>(),"ul":0,"cr":0,"doc":[0, 0],"x":[0, 0]}), &es);
+                        break 'steps;
+                    }
+                    Err(p) => {
+                        st.undo_fail += 1;
+                        w.event(json!({"ev":name,"r":"panic","site":panic_site(&p),"ul":0,"cr":0,"doc":[0, 0],"x":[0, 0]}), &es);
+                        break 'steps;
+                    }
+                }
+            }
+            Step::Begin => {
+                st.groups += 1;
+                let Ok(g) = guard(|| es.begin_atomic_undo("group")) else { break 'steps };
+                guards.push(g);
+                let Some((ul, cr)) = obs(&es) else { break 'steps };
+                w.event(json!({"ev":"begin","ul":ul,"cr":cr}), &es);
+            }
+            Step::EndDrop | Step::EndExplicit => {
+                let Some(mut g) = guards.pop() else { continue };
+                let explicit = matches!(step, Step::EndExplicit);
+                if let Err(p) = guard(move || { if explicit { g.end(); } drop(g); }) {
+                    w.event(json!({"ev":"end","kind": if explicit { "end" } else { "drop" },"r":"panic","site":panic_site(&p),"ul":0,"cr":0,"doc":[0, 0],"x":[0, 0]}), &es);
+                    break 'steps;
+                }
+                let Some((ul, cr)) = obs(&es) else { break 'steps };
+                w.event(json!({"ev":"end","kind": if explicit { "end" } else { "drop" },"ul":ul,"cr":cr}), &es);
+            }
+            Step::UndoAll => {
+                if guards.is_empty() {
+                    let n = obs(&es).map(|o| o.0).unwrap_or(0).min(120);
+                    for _ in 0..n { queue.push_front(Step::Undo); }
+                }
+            }
+            Step::RedoAll => {
+                // redo until nothing is redoable: re-queue itself after one redo
+                if guards.is_empty() && obs(&es).map(|o| o.1).unwrap_or(0) == 1 {
+                    queue.push_front(Step::RedoAll);
+                    queue.push_front(Step::Redo);
+                }
+            }
+        }
+    }
+    // guards and the state may be poisoned after a panic: drop them under guard
+    let _ = guard(move || { while let Some(g) = guards.pop() { drop(g); } });
+    let _ = guard(move || drop(es));
+}
+
+// ------------------------------------------------------------------------------------------------ case generators
+fn shape_steps(shape: &str, mut next_op: impl FnMut() -> Step) -> Vec<Step> {
+    shape.chars().filter_map(|c| match c {
+        'E' | 'D' => Some(next_op()),
+        'U' => Some(Step::Undo),
+        'R' => Some(Step::Redo),
+        'B' => Some(Step::Begin),
+        'X' => Some(Step::EndDrop),
+        'Y' => Some(Step::EndExplicit),
+        'Z' => Some(Step::UndoAll),
+        'W' => Some(Step::RedoAll),
+        _ => None,
+    }).collect()
+}
+
+struct Table {
+    ops: Vec<(&'static str, Vec<Vec<i64>>)>,
+    flat: Vec<(usize, usize)>, // (op, variant)
+}
+
+impl Table {
+    fn new() -> Self {
+        let ops = op_table();
+        let mut flat = vec![];
+        for (i, o) in ops.iter().enumerate() { for j in 0..o.1.len() { flat.push((i, j)); } }
+        Table { ops, flat }
+    }
+    fn step(&self, k: usize) -> Step {
+        let (i, j) = self.flat[k % self.flat.len()];
+        Step::Op(self.ops[i].0.to_string(), self.ops[i].1[j].clone())
+    }
+    fn rep(&self, i: usize) -> Step {
+        // representative variant of operation i
+        let o = &self.ops[i % self.ops.len()];
+        Step::Op(o.0.to_string(), o.1[0].clone())
+    }
+    fn random(&self, r: &mut StdRng) -> Step {
+        // uniform over operation NAMES first (so rare operations are not drowned by many-variant ones), then variants
+        let o = &self.ops[r.gen_range(0..self.ops.len())];
+        let mut args = o.1[r.gen_range(0..o.1.len())].clone();
+        if !args.is_empty() && r.gen_bool(0.25) {
+            let k = r.gen_range(0..args.len());
+            args[k] += r.gen_range(-1..=1);
+        }
+        Step::Op(o.0.to_string(), args)
+    }
+}
+
+fn gen_cases(seed: u64, thorough: bool, gen_path: &str) -> Vec<Case> {
+    let t = Table::new();
+    let mut cases = vec![];
+    let nflat = t.flat.len();
+    let nops = t.ops.len();
+
+    // (1) TLC-generated shapes (every interleaving of E/U/R/B/X/Y within the generator bounds), E := seeded table entries
+    if let Ok(text) = std::fs::read_to_string(gen_path) {
+        let mut r = rng(seed, 100);
+        let reps = if thorough { 4 } else { 1 };
+        for line in text.lines() {
+            let Ok(v) = serde_json::from_str::<Value>(line) else { continue };
+            let Some(shape) = v["shape"].as_str() else { continue };
+            for _ in 0..reps {
+                let sd = r.gen_range(0..N_SEEDS);
+                let steps = shape_steps(shape, || t.random(&mut r));
+                cases.push(Case { seed: sd, src: "tlc-shape", steps });
+            }
+        }
+    }
+    let n_shapes = cases.len();
+
+    // (2a) every table entry alone on every seed document: E Z W Z W, and E U R U R with no-op tails
+    for k in 0..nflat {
+        for sd in 0..N_SEEDS {
+            let mut steps = vec![t.step(k)];
+            steps.extend(shape_steps("ZWZWUR", || unreachable!()));
+            cases.push(Case { seed: sd, src: "single", steps });
+        }
+    }
+    // (2a') context pairs: an operation that changes what later undo records depend on (layer size, layer flags, selection,
+    //       caret font page, visibility, offset, stored rows/columns) followed by every table entry, and the reverse order for
+    //       set_layer_size; all seed documents in thorough, two (rotating with the seed) in quick
+    let ctx = ["set_layer_size", "update_layer_properties", "set_selection", "switch_to_font_page", "toggle_layer_visibility", "move_layer", "delete_column", "delete_row"];
+    let mut n = seed as usize;
+    for (ci, cj) in t.flat.iter().copied().filter(|(i, _)| ctx.contains(&t.ops[*i].0)) {
+        let c = Step::Op(t.ops[ci].0.to_string(), t.ops[ci].1[cj].clone());
+        for k in 0..nflat {
+            n += 1;
+            let seeds: Vec<usize> = if thorough { (0..N_SEEDS).collect() } else { vec![n % N_SEEDS, (n + 3) % N_SEEDS] };
+            for sd in seeds {
+                let mut steps = vec![c.clone(), t.step(k)];
+                steps.extend(shape_steps("ZWZW", || unreachable!()));
+                cases.push(Case { seed: sd, src: "ctx-pair", steps });
+                if t.ops[ci].0 == "set_layer_size" {
+                    let mut steps = vec![t.step(k), c.clone()];
+                    steps.extend(shape_steps("ZWZW", || unreachable!()));
+                    cases.push(Case { seed: sd, src: "ctx-pair", steps });
+                }
+            }
+        }
+    }
+    // (2b) pairs: exhaustive over all table entries x all seeds (thorough) / seeded sample (quick)
+    let mut r = rng(seed, 200);
+    if thorough {
+        for a in 0..nflat { for b in 0..nflat { for sd in 0..N_SEEDS {
+            let mut steps = vec![t.step(a), t.step(b)];
+            steps.extend(shape_steps("ZWZW", || unreachable!()));
+            cases.push(Case { seed: sd, src: "pair", steps });
+        }}}
+    } else {
+        for _ in 0..6000 {
+            let mut steps = vec![t.step(r.gen_range(0..nflat)), t.step(r.gen_range(0..nflat))];
+            steps.extend(shape_steps("ZWZW", || unreachable!()));
+            cases.push(Case { seed: r.gen_range(0..N_SEEDS), src: "pair", steps });
+        }
+    }
+    // (2c) triples: exhaustive over one representative per operation (thorough, seed document rotating) / sample (quick)
+    if thorough {
+        let mut n = 0usize;
+        for a in 0..nops { for b in 0..nops { for c in 0..nops {
+            let mut steps = vec![t.rep(a), t.rep(b), t.rep(c)];
+            steps.extend(shape_steps("ZWZ", || unreachable!()));
+            cases.push(Case { seed: (n + seed as usize) % N_SEEDS, src: "triple", steps });
+            n += 1;
+        }}}
+    } else {
+        for _ in 0..4000 {
+            let mut steps = vec![t.random(&mut r), t.random(&mut r), t.random(&mut r)];
+            steps.extend(shape_steps("ZWZ", || unreachable!()));
+            cases.push(Case { seed: r.gen_range(0..N_SEEDS), src: "triple", steps });
+        }
+    }
+    // (3) seeded random histories, up to 40 steps, groups nested up to depth 2, closed by a full unwind / rewind
+    let n_rand = if thorough { 6000 } else { 600 };
+    for h in 0..n_rand {
+        let mut r = rng(seed, 10_000 + h as u64);
+        let len = r.gen_range(1..=40);
+        let mut steps = vec![];
+        let mut depth = 0;
+        for _ in 0..len {
+            let k = r.gen_range(0..100);
+            if k < 62 { steps.push(t.random(&mut r)); }
+            else if k < 76 { if depth == 0 { steps.push(Step::Undo) } else { steps.push(t.random(&mut r)) } }
+            else if k < 86 { if depth == 0 { steps.push(Step::Redo) } else { steps.push(t.random(&mut r)) } }
+            else if k < 93 { if depth < 2 { depth += 1; steps.push(Step::Begin) } }
+            else if depth > 0 { depth -= 1; steps.push(if r.gen_bool(0.3) { Step::EndExplicit } else { Step::EndDrop }) }
+        }
+        while depth > 0 { depth -= 1; steps.push(Step::EndDrop); }
+        steps.push(Step::UndoAll);
+        steps.push(Step::RedoAll);
+        steps.push(Step::UndoAll);
+        cases.push(Case { seed: r.gen_range(0..N_SEEDS), src: "random", steps });
+    }
+    eprintln!("c08: {} cases ({} from TLC shapes, {} table entries of {} operations)", cases.len(), n_shapes, nflat, nops);
+    cases
+}
+
+// ------------------------------------------------------------------------------------------------ naming of findings
+// The verdict comes from Trace_Undo.tla alone.  To give a violation a KEY that names its cause rather than the
+// incidental history around it, the driver shrinks the violating history to a 1-minimal one that still violates the
+// same predicate (delta debugging, in-process) and names the operation whose undo/redo step first failed to restore
+// the (strict) snapshot in that minimal history.  `Judge` mirrors the property layer of Trace_Undo on digests.
+type Dg = (u64, u64);
+
+fn digest_pair(es: &EditState) -> Dg {
+    let mut h = HashSink::new();
+    snap(es, &mut h);
+    (h.w.finish(), h.x.finish())
+}
+
+struct Ent {
+    b: Option<Dg>,
+    a: Option<Dg>,
+    tag: String,
+}
+
+#[derive(Clone, Debug, PartialEq)]
+struct Verdict {
+    pred: String,
+    op: String,
+    site: String,
+}
+
+struct Judge {
+    past: Vec<Ent>,
+    future: Vec<Ent>,
+    open: Vec<usize>,
+    cur: Dg,
+    taint: Option<String>,
+    verdict: Option<Verdict>,
+    done: bool,
+}
+
+impl Judge {
+    fn new() -> Self {
+        Judge { past: vec![], future: vec![], open: vec![], cur: (0, 0), taint: None, verdict: None, done: false }
+    }
+    fn fail(&mut self, pred: &str, op: String, site: &str) {
+        self.verdict = Some(Verdict { pred: pred.to_string(), op, site: site.to_string() });
+        self.done = true;
+    }
+}
+
+impl Watch for Judge {
+    fn event(&mut self, ev: Value, es: &EditState) {
+        if self.done {
+            return;
+        }
+        let kind = ev["ev"].as_str().unwrap_or("").to_string();
+        let r = ev["r"].as_str().unwrap_or("ok").to_string();
+        if r == "err" || r == "panic" {
+            if kind == "undo" || kind == "redo" {
+                let tag = if kind == "undo" { self.past.last() } else { self.future.last() }.map(|e| e.tag.clone()).unwrap_or_else(|| "none".into());
+                let name = if kind == "undo" { "Undo" } else { "Redo" };
+                let op = self.taint.clone().unwrap_or(tag);
+                self.fail(&format!("{name}{}", if r == "panic" { "Panics" } else { "Fails" }), op, ev["site"].as_str().unwrap_or(""));
+            }
+            self.done = true;
+            return;
+        }
+        let now = digest_pair(es);
+        let ul = ev["ul"].as_u64().unwrap_or(0) as usize;
+        let cr = ev["cr"].as_i64().unwrap_or(0);
+        match kind.as_str() {
+            "reset" => {}
+            "op" if r == "ok" => {
+                let cls = ev["cls"].as_str().unwrap_or("");
+                let tag = if cls.is_empty() { ev["op"].as_str().unwrap_or("").to_string() } else { format!("{}#{}", ev["op"].as_str().unwrap_or(""), cls) };
+                let k = ul as i64 - self.past.len() as i64;
+                if k == 0 {
+                    if now.0 != self.cur.0 { self.fail("EditLeavesStep", tag, ""); return; }
+                    if cr == 0 { self.future.clear(); }
+                } else if k > 0 {
+                    if cr == 1 { self.fail("EditClearsRedo", tag, ""); return; }
+                    for i in 0..k {
+                        self.past.push(Ent { b: if i == 0 { Some(self.cur) } else { None }, a: if i == k - 1 { Some(now) } else { None }, tag: tag.clone() });
+                    }
+                    self.future.clear();
+                }
+            }
+            "undo" | "redo" => {
+                let is_undo = kind == "undo";
+                let e = if is_undo { self.past.pop() } else { self.future.pop() };
+                if let Some(e) = e {
+                    let want = if is_undo { e.b } else { e.a };
+                    if let Some(wd) = want {
+                        if wd.0 != now.0 {
+                            let op = self.taint.clone().unwrap_or(e.tag.clone());
+                            self.fail(if is_undo { "UndoRestores" } else { "RedoRestores" }, op, "");
+                            return;
+                        }
+                        if wd.1 != now.1 && self.taint.is_none() { self.taint = Some(e.tag.clone()); }
+                    }
+                    if is_undo { self.future.push(e) } else { self.past.push(e) }
+                }
+            }
+            "begin" => { self.open.push(self.past.len()); self.future.clear(); }
+            "end" => {
+                if let Some(base) = self.open.pop() {
+                    if self.past.len() > base {
+                        let inner: Vec<Ent> = self.past.drain(base..).collect();
+                        let tag = if inner.len() == 1 { inner[0].tag.clone() } else { format!("group({})", inner.iter().map(|e| e.tag.as_str()).collect::<Vec<_>>().join("+")) };
+                        // the engine may close the group into any number n >= 1 of steps: first `before` and last `after` are known
+                        let n = if ul > base { ul - base } else { 1 };
+                        for i in 0..n {
+                            self.past.push(Ent { b: if i == 0 { inner[0].b } else { None }, a: if i == n - 1 { inner[inner.len() - 1].a } else { None }, tag: tag.clone() });
+                        }
+                    } else if ul > self.past.len() {
+                        self.past.push(Ent { b: Some(now), a: Some(now), tag: "group()".into() });
+                    }
+                }
+            }
+            _ => {}
+        }
+        if self.past.len() != ul {
+            // lengths disagree: only "undoing everything gives the initial document" is still known (as in Trace_Undo!Forget)
+            let b0 = self.past.first().and_then(|e| e.b);
+            self.past = (0..ul).map(|i| Ent { b: if i == 0 { b0 } else { None }, a: None, tag: "?".into() }).collect();
+            for e in &mut self.future { e.b = None; e.a = None; }
+        }
+        self.cur = now;
+    }
+}
+
+fn judge(case: &Case) -> Option<Verdict> {
+    let mut j = Judge::new();
+    let mut st = Stats::default();
+    run_case(case, 0, &mut j, &mut st);
+    j.verdict
+}
+
+/// 1-minimal sub-history with the same failing predicate (and panic site).
+fn minimize(case: &Case) -> (Case, Option<Verdict>) {
+    let Some(v0) = judge(case) else { return (case.clone(), None) };
+    let same = |c: &Case| judge(c).map(|v| v.pred == v0.pred && v.site == v0.site).unwrap_or(false);
+    let mut cur = case.clone();
+    let mut chunk = (cur.steps.len() / 2).max(1);
+    loop {
+        let mut i = 0;
+        let mut removed = false;
+        while i < cur.steps.len() {
+            let mut t = cur.clone();
+            let end = (i + chunk).min(t.steps.len());
+            t.steps.drain(i..end);
+            if same(&t) { cur = t; removed = true; } else { i += chunk; }
+        }
+        if chunk == 1 && !removed { break; }
+        if chunk > 1 { chunk = (chunk / 2).max(1); }
+    }
+    let v = judge(&cur);
+    (cur, v)
+}
+
+fn step_json(s: &Step) -> Value {
+    match s {
+        Step::Op(n, a) => json!({"ev":"op","op":n,"args":a}),
+        Step::Undo => json!({"ev":"undo"}),
+        Step::Redo => json!({"ev":"redo"}),
+        Step::Begin => json!({"ev":"begin"}),
+        Step::EndDrop => json!({"ev":"end","kind":"drop"}),
+        Step::EndExplicit => json!({"ev":"end","kind":"end"}),
+        Step::UndoAll => json!({"ev":"undo_all"}),
+        Step::RedoAll => json!({"ev":"redo_all"}),
+    }
+}
+
+fn keys(inp: &str, outp: &str) {
+    let text = std::fs::read_to_string(inp).expect("cases file");
+    let v: Value = serde_json::from_str(&text).expect("cases json");
+    let mut res = vec![];
+    for c in v.as_array().cloned().unwrap_or_default() {
+        let case = parse_case(&c);
+        let (min, verdict) = minimize(&case);
+        match verdict {
+            Some(vd) => res.push(json!({"pred": vd.pred, "op": vd.op, "site": vd.site, "seed": min.seed, "min": min.steps.iter().map(step_json).collect::<Vec<_>>()})),
+            None => res.push(json!({"pred": "", "op": "", "site": "", "seed": case.seed, "min": []})),
+        }
+    }
+    std::fs::write(outp, serde_json::to_string(&res).unwrap()).expect("write keys");
+}
+
+// ------------------------------------------------------------------------------------------------ explain
+struct ExplainWatch {
+    stack: Vec<(TextSink, TextSink, String)>,   // (before, after, operation) per undo step
+    future: Vec<(TextSink, TextSink, String)>,
+    open: Vec<usize>,
+    cur: TextSink,
+    n: usize,
+    found: bool,
+}
+
+impl Watch for ExplainWatch {
+    fn event(&mut self, ev: Value, es: &EditState) {
+        self.n += 1;
+        let kind = ev["ev"].as_str().unwrap_or("").to_string();
+        let r = ev["r"].as_str().unwrap_or("ok").to_string();
+        let label = if kind == "op" { format!("{} {}", ev["op"].as_str().unwrap_or(""), ev["args"]) } else { kind.clone() };
+        if r == "err" || r == "panic" {
+            println!("{:3} {label}: {r} {} {}", self.n, ev["msg"].as_str().unwrap_or(""), ev["site"].as_str().unwrap_or(""));
+            if kind != "op" { self.found = true; println!("    => {kind}() itself failed on a history of successful operations"); }
+            return;
+        }
+        let now = full_snapshot(es);
+        let ul = ev["ul"].as_u64().unwrap_or(0) as usize;
+        println!("{:3} {label}: {r}, undo_stack_len={ul}, can_redo={}", self.n, ev["cr"]);
+        let mut report = |what: &str, want: &TextSink, op: &str| {
+            let d = diff(want, &now, false);
+            let ds = diff(want, &now, true);
+            if !d.is_empty() {
+                println!("    => {what} the step added by `{op}`: {} field(s) of the document differ; first: {}", d.len(), d[0]);
+                for x in d.iter().skip(1).take(4) { println!("       also: {x}"); }
+            } else if !ds.is_empty() {
+                println!("    (model layer) {what} `{op}`: document restored, but {} stored-but-unobservable field(s) differ; first: {}", ds.len(), ds[0]);
+            }
+            !d.is_empty()
+        };
+        match kind.as_str() {
+            "reset" => {}
+            "op" => {
+                if r == "ok" {
+                    let k = ul as i64 - self.stack.len() as i64;
+                    if k == 0 && !diff(&self.cur, &now, false).is_empty() {
+                        println!("    => the operation changed the document but added no undo step");
+                        self.found = true;
+                    }
+                    for i in 0..k.max(0) {
+                        let b = if i == 0 { self.cur.clone() } else { TextSink::default() };
+                        let a = if i == k - 1 { now.clone() } else { TextSink::default() };
+                        self.stack.push((b, a, label.clone()));
+                    }
+                    if k > 0 { self.future.clear(); }
+                }
+            }
+            "undo" => {
+                if let Some(e) = self.stack.pop() {
+                    if !e.0.items.is_empty() && report("after undoing", &e.0, &e.2) { self.found = true; }
+                    self.future.push(e);
+                }
+            }
+            "redo" => {
+                if let Some(e) = self.future.pop() {
+                    if !e.1.items.is_empty() && report("after redoing", &e.1, &e.2) { self.found = true; }
+                    self.stack.push(e);
+                }
+            }
+            "begin" => { self.open.push(self.stack.len()); self.future.clear(); }
+            "end" => {
+                if let Some(base) = self.open.pop() {
+                    if self.stack.len() > base {
+                        let inner: Vec<_> = self.stack.drain(base..).collect();
+                        self.stack.push((inner[0].0.clone(), inner[inner.len() - 1].1.clone(), "atomic group".into()));
+                    } else if ul > self.stack.len() {
+                        self.stack.push((now.clone(), now.clone(), "empty atomic group".into()));
+                    }
+                }
+            }
+            _ => {}
+        }
+        while self.stack.len() > ul { self.stack.pop(); }
+        self.cur = now;
+    }
+}
+
+fn parse_case(v: &Value) -> Case {
+    let mut steps = vec![];
+    for s in v["steps"].as_array().cloned().unwrap_or_default() {
+        let ev = s["ev"].as_str().unwrap_or("");
+        match ev {
+            "op" => steps.push(Step::Op(s["op"].as_str().unwrap_or("").to_string(), s["args"].as_array().map(|a| a.iter().map(|x| x.as_i64().unwrap_or(0)).collect()).unwrap_or_default())),
+            "undo" => steps.push(Step::Undo),
+            "redo" => steps.push(Step::Redo),
+            "begin" => steps.push(Step::Begin),
+            "end" => steps.push(if s["kind"].as_str() == Some("end") { Step::EndExplicit } else { Step::EndDrop }),
+            "undo_all" => steps.push(Step::UndoAll),
+            "redo_all" => steps.push(Step::RedoAll),
+            _ => {}
+        }
+    }
+    Case { seed: v["seed"].as_u64().unwrap_or(0) as usize, src: "replay", steps }
+}
+
+fn explain(path: &str) {
+    let text = std::fs::read_to_string(path).expect("case file");
+    let v: Value = serde_json::from_str(&text).expect("case json");
+    let case = parse_case(&v);
+    println!("replaying history on seed document {} ({} steps)", case.seed, case.steps.len());
+    let mut w = ExplainWatch { stack: vec![], future: vec![], open: vec![], cur: full_snapshot(&seed_doc(case.seed)), n: 0, found: false };
+    let mut st = Stats::default();
+    run_case(&case, 0, &mut w, &mut st);
+    println!("{}", if w.found { "RESULT: property violated by this history (see => lines)" } else { "RESULT: no difference found on replay" });
+}
+
+// ------------------------------------------------------------------------------------------------ entry point
+pub fn c08(a: &Args) {
+    crate::util::install_panic_hook();
+    if a.has("explain") {
+        explain(&a.str("explain", ""));
+        return;
+    }
+    if a.has("keys") {
+        keys(&a.str("keys", ""), &a.str("out", "work/C08/keys.json"));
+        return;
+    }
+    let out = a.str("out", "work/C08/trace.ndjson");
+    let seed = a.u64("seed", 0);
+    let thorough = a.str("tier", "quick") == "thorough";
+    let shards = a.usize("shards", 4).max(1);
+    let cases = gen_cases(seed, thorough, &a.str("gen", "gen/undo_shapes.ndjson"));
+    let cases = std::sync::Arc::new(cases);
+    let mut handles = vec![];
+    for s in 0..shards {
+        let cases = cases.clone();
+        let path = out.replace(".ndjson", &format!("-s{s}.ndjson"));
+        handles.push(std::thread::Builder::new().stack_size(64 << 20).spawn(move || {
+            let mut o = Out::create(&path);
+            let mut st = Stats::default();
+            for (i, c) in cases.iter().enumerate() {
+                if i % shards != s { continue; }
+                let mut w = TraceWatch { out: &mut o };
+                run_case(c, i, &mut w, &mut st);
+            }
+            o.flush();
+            (st, o.n)
+        }).unwrap());
+    }
+    let mut total = Stats::default();
+    let mut events = 0;
+    for h in handles {
+        let (st, n) = h.join().expect("driver thread");
+        total.merge(st);
+        events += n;
+    }
+    let never_ok: Vec<&str> = op_table().iter().map(|o| o.0).filter(|n| !total.per_op_ok.contains_key(*n)).collect();
+    let summary = json!({"cases": total.cases, "events": events, "ops_ok": total.ops_ok, "ops_err": total.ops_err, "ops_panic": total.ops_panic, "ops_skip": total.ops_skip,
+        "undo_calls": total.undo, "redo_calls": total.redo, "groups": total.groups, "undo_redo_failures": total.undo_fail,
+        "operations_in_table": op_table().len(), "operations_succeeded_at_least_once": total.per_op_ok.len(), "operations_never_ok": never_ok,
+        "cut_by_operation": total.per_op_cut, "panic_sites_inside_operations": total.op_panic_sites});
+    let sp = out.replace(".ndjson", "-summary.json");
+    std::fs::write(&sp, serde_json::to_string_pretty(&summary).unwrap()).expect("summary");
+    eprintln!("c08: {} cases, {} events, ops ok/err/panic/skip = {}/{}/{}/{}, undo/redo failures {}", total.cases, events, total.ops_ok, total.ops_err, total.ops_panic, total.ops_skip, total.undo_fail);
 }
